@@ -254,8 +254,9 @@ func c09DHCP(c *ev.Collector, rt *rapid.T, m gen.DHCPMsg) {
 	// re-encode the decoded value
 	n2 := 0
 	buf2 := make([]byte, len(m.Wire)+64)
-	if pf, pm := safeCall(func() { n2, err = d.Read(buf2) }); pf != "" || err != nil || !bytes.Equal(buf2[:n2], m.Wire) {
-		c.Report(rt, "C09|DHCP|reencode-differs", fmt.Sprintf("%s %s %v: %s vs %s", pf, pm, err, hx(buf2[:n2]), hx(m.Wire)), rep)
+	// (filler behind the END option is not part of the decoded value: the re-encoding ends with the END)
+	if pf, pm := safeCall(func() { n2, err = d.Read(buf2) }); pf != "" || err != nil || !bytes.Equal(buf2[:n2], m.Wire[:m.Read]) {
+		c.Report(rt, "C09|DHCP|reencode-differs", fmt.Sprintf("%s %s %v: %s vs %s", pf, pm, err, hx(buf2[:n2]), hx(m.Wire[:m.Read])), rep)
 		return
 	}
 	if len(m.Opts) >= 2 {
